@@ -6,6 +6,8 @@ CONSTANTS
   Names = {"x", "y"}
   Keys <- AllKeys
   ValChoice <- MCVal
+  OpenCands <- NearLocs
+  MergeCands <- NearPairs
   MaxDepth = 16
   Record = TRUE
   Fat = TRUE
@@ -20,5 +22,5 @@ CONSTANTS
   NoErr = FALSE
   SimDepth = 200
 ACTION_CONSTRAINT SimBound
-INVARIANTS LastSegRefines PerspRefines FactPerspRefines EmitSim
+INVARIANTS LastSegRefines PerspRefines FactPerspRefines BraidRefines EmitSim
 CHECK_DEADLOCK FALSE
